@@ -155,6 +155,22 @@ def w2(ctx):
             continue
         n += 1
         recv_mut = b.argc >= 1 and b.local_ty(1).startswith("&mut egraph::EGraph<")
+        if not recv_mut and b.vis != "pub" and b.kind != "Closure":
+            # a private helper that itself gets `&self` (the cell needs no more) is fine when everything that calls it — up to two
+            # levels — holds the e-graph mutably: no read-only API can reach it
+            def only_from_mut(fb, depth):
+                cs_ = [x for x in crate.fns() if x.id != fb.id and any(c_.callee and c_.callee.target == fb.id for c_ in x.all_calls())]
+                if not cs_:
+                    return False
+                for x in cs_:
+                    x = crate.root_of(x)
+                    if x.argc >= 1 and x.local_ty(1).startswith("&mut egraph::EGraph<"):
+                        continue
+                    if depth > 0 and x.vis != "pub" and only_from_mut(x, depth - 1):
+                        continue
+                    return False
+                return True
+            recv_mut = only_from_mut(b, 1)
         ctx.check(recv_mut, "setter-caller-is-mut:" + C.fkey(b), "%s (calls the union-find setter) takes &mut EGraph" % C.short(b.id),
                   "%s calls the union-find setter but takes %s — a read-only API can rewrite the union-find" % (C.short(b.id), b.local_ty(1) if b.argc else "no receiver"), where_of(b))
     ctx.floor("callers of the union-find setter", n, 2)
